@@ -162,7 +162,12 @@ def write_replay(prop, formula, scn, line, trace_lines):
     return path
 
 
+REPLAY_MODE = False
+
+
 def write_evidence(prop, tier, seed, level, coverage, wall_s, violations, assumptions):
+    if REPLAY_MODE:      # a replay re-executes one recorded scenario; it does not describe a check's coverage
+        return
     os.makedirs(EVID, exist_ok=True)
     ev = {"property_id": prop, "tier": tier, "seed": seed, "level": level, "coverage": coverage,
           "assumptions": assumptions, "wall_s": round(wall_s, 1), "violations": violations}
@@ -175,17 +180,17 @@ def write_evidence(prop, tier, seed, level, coverage, wall_s, violations, assump
 PIE_PROPS = {
     "C01": {"fams": [("WF", 300, 2000, {}), ("WF", 100, 800, {"max_t": 7, "max_r": 5, "steps": 6})], "curated": ["known_findings.jsonl"], "design": ["td"]},
     "C02": {"fams": [("WF", 250, 2000, {}), ("WF", 80, 800, {"max_t": 7, "max_r": 5, "steps": 6})], "curated": ["f1_same_target_twice.jsonl"], "design": ["td"]},
-    "C03": {"fams": [("WF", 250, 2000, {"steps": 6}), ("WF", 150, 1000, {"max_t": 8, "max_r": 5, "steps": 7})], "curated": ["known_findings.jsonl"], "design": ["bu"]},
-    "C04": {"fams": [("WF", 250, 2000, {"steps": 6}), ("WF", 150, 1000, {"max_t": 8, "max_r": 5, "steps": 7})], "curated": [], "design": ["bu"]},
+    "C03": {"fams": [("WF", 150, 2000, {"steps": 6}), ("WF", 400, 2000, {"max_t": 8, "max_r": 5, "steps": 7})], "curated": ["known_findings.jsonl"], "design": ["bu"]},
+    "C04": {"fams": [("WF", 150, 2000, {"steps": 6}), ("WF", 400, 2000, {"max_t": 8, "max_r": 5, "steps": 7})], "curated": [], "design": ["bu"]},
     "C05": {"fams": [("INJ", 150, 2000, {}), ("INJ", 50, 700, {"max_t": 7, "max_r": 5})], "curated": [], "design": ["inj"]},
-    "C06": {"fams": [("INJ", 120, 1500, {}), ("WF", 40, 600, {})], "curated": [], "design": ["inj"]},
+    "C06": {"fams": [("INJ", 120, 1500, {}), ("WF", 60, 600, {}), ("WF", 80, 600, {"max_t": 7, "max_r": 5, "steps": 6})], "curated": [], "design": ["inj"]},
     "C07": {"fams": [("INJ", 150, 2000, {}), ("INJ", 50, 700, {"max_t": 7, "max_r": 5})], "curated": [], "design": ["inj"]},
     "C08": {"fams": [("WF", 90, 1200, {}), ("TWOCHK", 40, 600, {}), ("ABORT", 50, 800, {})], "curated": ["k2_two_checkers.jsonl"], "design": ["td"]},
     "C09": {"fams": [("WF", 250, 2000, {}), ("WF", 80, 800, {"max_t": 7, "max_r": 5, "steps": 6})], "curated": [], "design": ["td"]},
     "C15": {"fams": [("IDENT", 110, 1500, {})], "curated": [], "design": []},
     "C17": {"fams": [("WF", 70, 1000, {}), ("INJ", 30, 500, {}), ("FAULT", 30, 300, {}), ("ABORT", 20, 300, {})], "curated": [], "design": []},
     "C18": {"fams": [("FAULT", 130, 1800, {}), ("FAULT", 40, 600, {"max_t": 7, "max_r": 5, "steps": 6})], "curated": [], "design": []},
-    "C19": {"fams": [("ABORT", 120, 1400, {}), ("INJ", 60, 600, {})], "curated": ["f2_abort_then_require.jsonl"], "design": []},
+    "C19": {"fams": [("ABORT", 120, 1400, {}), ("ABORT", 60, 600, {"max_t": 7, "max_r": 5, "steps": 6}), ("INJ", 60, 600, {})], "curated": ["f2_abort_then_require.jsonl"], "design": []},
     "C20": {"fams": [("ROLE", 300, 2000, {"max_t": 4}), ("WF", 60, 600, {})], "curated": ["known_findings.jsonl"], "design": []},
 }
 
@@ -219,11 +224,19 @@ def run_pie_check(prop, tier, seed, replay):
         if not replay:
             quick_cfgs, more_cfgs, sim_cfg = PROP_DESIGN.get(prop, ([], [], None))
             for name in quick_cfgs + (more_cfgs if tier == "thorough" else []):
-                r = run_mc(name, timeout=3000)
+                # the last exhaustive configuration also prints every complete behaviour; a uniform sample is replayed
+                emit = name == (quick_cfgs + (more_cfgs if tier == "thorough" else []))[-1]
+                r = run_mc(name, {"EmitScenarios": True} if emit else None, timeout=3000)
                 if r["violated"] or not r["completed"]:
                     raise ToolError("design-level check %s of the specification failed (independent of /repo): %s %s\n%s"
                                     % (name, r.get("violated"), r.get("viol"), r.get("error_tail", r.get("trace_tail", ""))[-3000:]))
                 design.append({k: r[k] for k in ("name", "distinct", "generated", "depth", "wall_s", "params")})
+                if emit:
+                    mcs, total = sample_design_scenarios(r, name, 150 if tier == "quick" else 3000, seed)
+                    design[-1]["complete_behaviours_printed"] = total
+                    design[-1]["behaviours_replayed_on_implementation"] = len(mcs)
+                    for sc in mcs:
+                        out.write(json.dumps(sc) + "\n")
             if sim_cfg:
                 num = 150 if tier == "quick" else 3000
                 r, sims = tlc_scenarios(sim_cfg, {}, num, 400, seed, cap=120 if tier == "quick" else 2500)
@@ -366,6 +379,8 @@ def run_pie_check(prop, tier, seed, replay):
 
 
 def run_check(prop, tier, seed, replay):
+    global REPLAY_MODE
+    REPLAY_MODE = bool(replay)
     if prop in PIE_PROPS:
         return run_pie_check(prop, tier, seed, replay)
     if prop in DAG_PROPS:
@@ -612,6 +627,40 @@ def run_mc(name, overrides=None, workers=None, timeout=1800, simulate=None, extr
         res["viol"] = vm[-1] if vm else ""
         res["trace_tail"] = out[-6000:]
     return res
+
+
+def scenario_from_rec(rec, sid):
+    nt, nr, na, ln = rec["nt"], rec["nr"], rec["na"], rec["len"]
+    prog = [[[{"k": "ret", "x": 0, "c": "", "f": 0} for _ in range(na)] for _ in range(ln + 1)] for _ in range(nt)]
+    for e in rec["prog"]:
+        prog[e["t"] - 1][e["pc"]][e["acc"]] = e["op"]
+    init = [-1] * nr
+    hist = []
+    for h in rec["hist"]:
+        if h["s"] == "init":
+            init = h["v"]
+        elif h["s"] == "boom_clr":
+            hist.append({"s": "boom_clr"})
+        else:
+            hist.append(h)
+    return {"id": sid, "family": rec["family"], "nt": nt, "nr": nr, "nv": rec["nv"], "na": na, "len": ln, "ttype": [0] * nt,
+            "tnum": list(range(1, nt + 1)), "rtype": [0] * nr, "rnum": list(range(1, nr + 1)), "writer": rec["writer"], "prog": prog,
+            "init": init, "hist": hist, "note": "behaviour of Pie.tla explored by TLC"}
+
+
+def sample_design_scenarios(r, name, n, seed):
+    """Uniform sample of the complete behaviours an exhaustive design-level run printed (EmitScenarios)."""
+    import random
+    lines = sorted(set(r.get("scenario_lines", [])))
+    random.Random(seed).shuffle(lines)
+    out = []
+    for line in lines[:n]:
+        try:
+            rec = json.loads(json.loads(line))
+        except Exception:
+            continue
+        out.append(scenario_from_rec(rec, "mc-%s-%d-%d" % (name, seed, len(out))))
+    return out, len(lines)
 
 
 def tlc_scenarios(name, overrides, num, depth, seed, cap=150):
